@@ -1516,6 +1516,14 @@ func (c *Client) Clone() *Client {
 	cc.udBeforeRequest = cloneSlice(c.udBeforeRequest)
 	cc.afterResponse = cloneSlice(c.afterResponse)
 	cc.dumpOptions = c.dumpOptions.Clone()
+	if c.Dump != nil && cc.dumpOptions != nil {
+		// keep the copy's dumper following the copy's options, as the original's
+		// dumper follows c.dumpOptions (EnableDumpAllTo, EnableDumpAllWithout* etc.
+		// change the options in place after dump has been enabled)
+		if o, ok := c.Dump.Options.(dumpOptions); ok && o.DumpOptions == c.dumpOptions {
+			cc.Dump.SetOptions(dumpOptions{cc.dumpOptions})
+		}
+	}
 	cc.retryOption = c.retryOption.Clone()
 	return &cc
 }
